@@ -29,8 +29,9 @@ _lock = threading.Lock()
 class Net(object):
     """Shared recorder / scheduler state for one workload."""
 
-    def __init__(self, seed=0, delay=0.0, poll_cap=0.001, jitter=0.0):
+    def __init__(self, seed=0, delay=0.0, poll_cap=0.001, jitter=0.0, sndbuf=None):
         self.rnd = random.Random(seed)
+        self.sndbuf = sndbuf        # a host configured with small socket send buffers (bytes)
         self.delay = delay          # max seeded sleep before recv/sendall (seconds)
         self.poll_cap = poll_cap
         self.jitter = jitter        # extra random sleep in select (provider thread slow-down)
@@ -70,6 +71,11 @@ class TapSocket(object):
         self.received = bytearray()
         self.closed = False
         self.reset_after_sent = None     # scripted fault: reset once this many bytes were sent
+        if getattr(net, 'sndbuf', None):
+            try:
+                sock.setsockopt(real_socket.SOL_SOCKET, real_socket.SO_SNDBUF, net.sndbuf)
+            except OSError:
+                pass
         with _lock:
             net.opened += 1
             self.ident = len(net.taps)
